@@ -561,6 +561,80 @@ def r11_text_is_decoded_as_it_was_encoded(ctx, rule="C18.R11"):
     ctx.require(rule, 1)
 
 
+def _len_of_field(o):
+    o = mir.strip_all(o)
+    if o[0] == "agg" and o[3]:
+        for x in o[3]:
+            r = _len_of_field(x)
+            if r:
+                return r
+        return None
+    if o[0] == "call" and o[1].split("::")[-1] == "len" and o[2]:
+        r = mir.strip_all(o[2][0])
+        if r[0] == "field":
+            return (r[2], o[3])
+    return None
+
+
+def r13_recorded_index_exists(ctx, rule="C18.R13"):
+    """A file's `current FIELD list` is remembered as an index into the vector of its FIELD lists (the
+    reader hands the remembered value to `get` / `[]` on that vector).  Where the remembered value is the
+    vector's length, it is the index of the list *about to be appended*: every path from taking the
+    length to the end of the function must push onto the vector - a length taken after the push is one
+    past the end, and PUT then finds no current list (Bad file mode on a correctly opened file)."""
+    prog = ctx.prog
+    fns = [f for f in prog.fns.values() if f.body is not None and f.crate == "rusty_basic"
+           and (f.file or "").endswith("interpreter/io.rs")]
+    if not fns:
+        raise CheckError("no functions of interpreter/io.rs")
+    pairs = set()
+    for f in fns:
+        pv = mir.Prov(f.body)
+        for b, t in f.body.calls():
+            if mir.callee_path(t).split("::")[-1] in ("get", "get_mut", "index", "index_mut") and len(t["args"]) >= 2:
+                r = mir.strip_all(pv.of_operand(t["args"][0]))
+                i = mir.strip_all(pv.of_operand(t["args"][1]))
+                while i[0] == "downcast" or (i[0] == "field" and str(i[2]).isdigit()):
+                    i = mir.strip_all(i[1])
+                if r[0] == "field" and i[0] == "field" and isinstance(i[2], str) and not i[2].isdigit():
+                    pairs.add((i[2], r[2]))
+    if not pairs:
+        raise CheckError("no remembered index into a vector found in interpreter/io.rs (anchor lost)")
+    n = 0
+    for f in sorted(fns, key=lambda x: x.id):
+        body = f.body
+        pv = mir.Prov(body)
+        for b, blk in enumerate(body.blocks):
+            if blk.get("c"):
+                continue
+            for st in blk["s"]:
+                if st["k"] != "assign":
+                    continue
+                fld = [e.get("n") for e in st["p"][1] if isinstance(e, dict) and "f" in e]
+                if not fld:
+                    continue
+                got = _len_of_field(pv._of_rvalue(st["r"], 0))
+                if got is None or (fld[-1], got[0]) not in pairs:
+                    continue
+                vec, len_block = got
+                n += 1
+                pushes = set()
+                for b2, t2 in body.calls():
+                    if mir.callee_path(t2).split("::")[-1] in ("push", "push_back") and t2["args"]:
+                        r = mir.strip_all(pv.of_operand(t2["args"][0]))
+                        if r[0] == "field" and r[2] == vec:
+                            pushes.add(b2)
+                ok = bool(pushes) and body.every_path_passes(len_block, set(body.exits()), pushes) \
+                    and not any(len_block in body.reachable(pb) for pb in pushes if pb != len_block)
+                ctx.decide(ok, rule, "%s:%s:%s" % (rule, f.name, fld[-1]), f.loc,
+                           "%s := %s.len() is followed by a push onto %s on every path" % (fld[-1], vec, vec),
+                           "%s remembers %s.len() in %s, but no push onto %s follows on every path (or the length is "
+                           "taken after the push): the remembered index is one past the last element, the reader's "
+                           "lookup finds nothing" % (f.name, vec, fld[-1], vec))
+    ctx.analysed_units(rule, index_pairs=sorted(pairs), stored_lengths=n)
+    ctx.require(rule, 1)
+
+
 def run(ctx):
     common.install(ctx)
     r1_open_guard(ctx)
@@ -574,3 +648,6 @@ def run(ctx):
     r9_put_get_same_offset(ctx)
     r10_get_tolerates_short_record(ctx)
     r11_text_is_decoded_as_it_was_encoded(ctx)
+    from . import c01
+    c01.r3_determinism(ctx, "C18.R12")
+    r13_recorded_index_exists(ctx)
